@@ -4,19 +4,22 @@
    SHA-256) are instantiated with FINITE TABLES computed by the harness with the Go
    standard library / ecmath for exactly the arguments that occur in the case; a group
    element is represented by its 32-byte encoding.  A lookup that misses (the model
-   asks for a value the code never computed) yields [] and therefore a mismatch.
+   asks for a value the code never computed) yields [] and therefore a mismatch.  The
+   key-file MAC hash is run for real (Verif.Sha3.sha3_256).
    What the run checks bit-exactly is everything the model itself computes: pruning,
    the carry chain, the panic condition, which HMAC/SHA inputs are formed from which
    bytes, reduction mod L, (h*a + r) mod L, the checks of Verify, key-file MAC and
    XOR, password / alias handling. *)
 From Coq Require Import List NArith Bool Arith.
-From Verif Require Import Outcome Cmp.
+From Verif Require Import Outcome Cmp Sha3.
 From C28 Require Import Model.
 Import ListNotations.
 Open Scope N_scope.
 
-(* a byte string written as (length, little-endian number) *)
-Definition X (k : nat) (n : N) : bytes := n2le k n.
+(* a byte string written as (length, little-endian number); same value as [n2le k n],
+   computed with shifts (division of a 500-bit number is slow under vm_compute) *)
+Fixpoint X (k : nat) (n : N) : bytes :=
+  match k with O => [] | S k' => N.land n 255 :: X k' (N.shiftr n 8) end.
 
 Record tabs := {
   t_hmac : list (bytes * bytes * bytes);     (* key, message, result *)
@@ -27,8 +30,7 @@ Record tabs := {
   t_gmul : list (N * bytes * bytes);         (* k, P, k*P *)
   t_dec : list bytes;                        (* encodings accepted by Decode *)
   t_kdf : list (bytes * bytes * bytes);      (* password, salt, derived key *)
-  t_ctr : list (bytes * bytes * bytes);      (* key, iv, key stream prefix *)
-  t_sha256 : list (bytes * bytes)
+  t_ctr : list (bytes * bytes * bytes)       (* key, iv, key stream prefix *)
 }.
 
 Fixpoint look1 {V} (eq : bytes -> bytes -> bool) (k : bytes) (t : list (bytes * V)) (d : V) : V :=
@@ -66,7 +68,7 @@ Section RUN.
   Definition sha_t (m : bytes) : bytes := look1 bytes_eqb m (t_sha T) [].
   Definition kdf_t (pw salt : bytes) : bytes := look2 pw salt (t_kdf T).
   Definition ctr_t (k iv : bytes) (n : nat) : bytes := firstn n (look2 k iv (t_ctr T)).
-  Definition sha256_t (m : bytes) : bytes := look1 bytes_eqb m (t_sha256 T) [].
+  Definition sha256_t (m : bytes) : bytes := sha3_256 m.   (* the executable SHA3-256 of coq/lib *)
 
   Definition flat (x : bytes * bytes) : bytes := fst x ++ snd x.
   Definition oc (o : outcome kerr bytes) : bytes :=
